@@ -77,7 +77,7 @@ case $ID in
     git apply $S/demo_hook.diff; cp $S/demo.rs tests/seed_demo.rs; RUSTFLAGS="--cfg seeded_demo" T cargo test --offline --test seed_demo; without=$?
     git apply $S/patch.diff; STALE_HEAD=1 RUSTFLAGS="--cfg seeded_demo" T cargo test --offline --test seed_demo; with=$? ;;
   C07-3)
-    mkdir -p SEEDED/demo_crate && cp -r $S/demo_crate/* SEEDED/demo_crate/
+    mkdir -p SEEDED/demo_crate && cp -r /verif/seeded/C07-3/demo_crate/* SEEDED/demo_crate/
     (cd SEEDED/demo_crate && MIRIFLAGS="-Zmiri-disable-weak-memory-emulation" T cargo +nightly miri run --offline --bin demo1); without=$?
     git apply $S/patch.diff
     (cd SEEDED/demo_crate && MIRIFLAGS="-Zmiri-disable-weak-memory-emulation" T cargo +nightly miri run --offline --bin demo1); with=$? ;;
